@@ -2529,6 +2529,19 @@ def simplify_transposes(source: str) -> str:
             yield node, second_transpose_target
 
 
+def _always_raises(node: ast.AST) -> bool:
+    """Determine if node is an expression made of literals only that has no value, like 1 / 0."""
+    if any(isinstance(child, (ast.Name, ast.Attribute)) for child in ast.walk(node)):
+        return False
+
+    try:
+        core.literal_value(node)
+    except ValueError:
+        return True
+
+    return False
+
+
 @processing.fix
 def remove_dead_ifs(source: str) -> str:
     root = core.parse(source)
@@ -2628,6 +2641,14 @@ def remove_dead_ifs(source: str) -> str:
             if any(
                 core.has_side_effect(comprehension.iter, constants.SAFE_CALLABLES)
                 for comprehension in node.generators
+            ):
+                continue
+
+            # Neither are the conditions in front of the one that is always false.
+            if any(
+                core.has_side_effect(if_, constants.SAFE_CALLABLES) or _always_raises(if_)
+                for comprehension in node.generators
+                for if_ in comprehension.ifs
             ):
                 continue
 
